@@ -629,6 +629,24 @@ def integrals_start_from_zero(ctx, F, rule, sfx, trait):
                 bad.append('%s = %s' % (lf, repr(x)[:40]))
         n += 1
         ctx.check(rule, '%s:starts-from-zero%s' % (st.split('::')[-1], sfx), not bad, bad or 'all accumulators zero', 'init() == zero accumulators', where(ib), key_extra='init-zero')
+        # the exported argument-less constructor of the same accumulator (`AreaCentroidIntegral::init()`), where there is one
+        for pth, bs in F.by_path.items():
+            b0 = bs[0]
+            if b0.get('arg_count') == 0 and b0.get('exported') and strip_generics(pth) in (st + '::init', st + '::new', st + '::zero') :
+                ip2 = I.Interp(F)
+                v2, _ = ip2.call_body(b0, [])
+                ctx.evaluations += ip2.evaluations
+                bad2 = []
+                for lf in leaves:
+                    x = dget(v2, lf)
+                    if isinstance(x, RF):
+                        z = x.is_zero()
+                    else:
+                        from ..tables import c3
+                        z = all(as_rf(c).is_zero() for c in c3(x))
+                    if not z:
+                        bad2.append('%s = %s' % (lf, repr(x)[:40]))
+                ctx.check(rule, '%s:public-constructor-starts-from-zero%s' % (st.split('::')[-1], sfx), not bad2, bad2 or 'all accumulators zero', '%s() == zero accumulators' % strip_generics(pth).split('::')[-1], where(b0), key_extra='ctor-zero')
     return n
 
 
